@@ -3,8 +3,8 @@
    Print Assumptions follows every theorem.  run/stuck: the path semantics of lock skeletons. The skeleton of every mutex-touching function of /repo is regenerated on each run and must satisfy `balanced` (coq/gentie/Tie_locks.v); balanced_sound then gives the property for every path, including every error return. *)
 
 From Coq Require Import List NArith Bool Sorting Permutation.
-From Ice Require Import Base Lock.
-From IceProofs Require Lock_Proofs.
+From Ice Require Import Base Lock Spec Dict SegmentOps.
+From IceProofs Require Lock_Proofs SegmentOps_Proofs.
 Import ListNotations.
 Open Scope N_scope.
 
@@ -46,3 +46,51 @@ Theorem dictionary_prefix_refuted :
     held st' = true /\ deferred st' = false).
 Proof. exact @Lock_Proofs.dictionary_prefix_refuted. Qed.
 Print Assumptions dictionary_prefix_refuted.
+
+(* the hand model of Segment.dictionary with its mutex and FST cache under an ARBITRARY storage oracle: after every call of every finite sequence the mutex is free, no call blocks or panics, each returns an error or the right dictionary, and the cache only ever holds correctly loaded FSTs *)
+Theorem dict_never_blocks :
+    forall (F : N -> N) (loads_ok : N -> bool) (ok : nat -> bool) (calls : list (N * bool)) (st : dstate),
+    locked st = false ->
+    SegmentOps_Proofs.cache_inv F loads_ok (cache st) ->
+    let tr := dictionary_trace F loads_ok ok true st calls in
+    Forall (SegmentOps_Proofs.step_ok F loads_ok) tr /\
+    Forall2 (SegmentOps_Proofs.call_ok F) calls (map snd tr) /\
+    locked (SegmentOps_Proofs.final_state st tr) = false /\
+    SegmentOps_Proofs.cache_inv F loads_ok (cache (SegmentOps_Proofs.final_state st tr)) /\
+    (forall k v : N,
+    fsts_get (cache st) k = Some v -> fsts_get (cache (SegmentOps_Proofs.final_state st tr)) k = Some v).
+Proof. exact @SegmentOps_Proofs.dict_never_blocks. Qed.
+Print Assumptions dict_never_blocks.
+
+(* a warm cache serves its field without touching the failing storage *)
+Theorem cached_call_no_read :
+    forall (F : N -> N) (loads_ok : N -> bool) (ok : nat -> bool) (st : dstate) (id v : N),
+    locked st = false ->
+    SegmentOps_Proofs.cache_inv F loads_ok (cache st) ->
+    fsts_get (cache st) id = Some v -> dictionary_call F loads_ok ok st id true = (st, Ok (Some (F id))).
+Proof. exact @SegmentOps_Proofs.cached_call_no_read. Qed.
+Print Assumptions cached_call_no_read.
+
+(* the cache is observationally transparent *)
+Theorem cache_transparent :
+    forall (F : N -> N) (loads_ok : N -> bool) (ok : nat -> bool) (calls : list (N * bool)) (st : dstate),
+    (forall k : nat, ok k = true) ->
+    locked st = false ->
+    SegmentOps_Proofs.cache_inv F loads_ok (cache st) ->
+    dictionary_results F loads_ok ok st calls = dictionary_results_nocache F loads_ok ok st calls.
+Proof. exact @SegmentOps_Proofs.cache_transparent. Qed.
+Print Assumptions cache_transparent.
+
+(* regression of the method: with the pinned version the second call blocks forever *)
+Theorem dictionary_prefix_blocks :
+    forall (F : N -> N) (loads_ok : N -> bool),
+    exists (ok : nat -> bool) (calls : list (N * bool)),
+    length calls = 2%nat /\
+    map snd (dictionary_trace F loads_ok ok false ds_init calls) = [Err; Block] /\
+    map (fun sr : dstate * result (option N) => locked (fst sr))
+    (dictionary_trace F loads_ok ok false ds_init calls) = [true; true] /\
+    map snd (dictionary_trace F loads_ok ok true ds_init calls) = [Err; Err] /\
+    map (fun sr : dstate * result (option N) => locked (fst sr))
+    (dictionary_trace F loads_ok ok true ds_init calls) = [false; false].
+Proof. exact @SegmentOps_Proofs.dictionary_prefix_blocks. Qed.
+Print Assumptions dictionary_prefix_blocks.
